@@ -20,7 +20,7 @@ def main():
     for d in sorted(glob.glob(os.path.join(V, "seeded", "*"))):
         name = os.path.basename(d)
         prop = name.split("-")[0]
-        if props and prop not in props:
+        if props and prop not in props and name not in props:
             continue
         mp = os.path.join(d, "meta.json")
         meta = json.load(open(mp))
